@@ -163,6 +163,12 @@ def handlers_never_raise_stopiteration(ck, rule):
                         for a in ast.walk(m.node))
                     if in_try:
                         continue
+                    names_in_arg = {y.id for y in ast.walk(x.args[0]) if isinstance(y, ast.Name)} - {m.self_name}
+                    tested = any(isinstance(i0, (ast.If, ast.IfExp)) and names_in_arg & {y.id for y in ast.walk(i0.test) if isinstance(y, ast.Name)}
+                                 for i0 in ast.walk(m.node))
+                    if tested:
+                        raise AnalysisError(f"{where(m, x)}: next(...) without a default over something the method tests beforehand - "
+                                            "whether the test establishes non-emptiness is not decided by this rule")
                     hit = True
                     ck.violation(rule, f"{short(m)}:next", where(m, x),
                                  "`next(...)` without a default in a -D message handler: when the iterator is empty (a benchmark file "
